@@ -95,6 +95,52 @@ def run(ctx, rep):
         rep.case(key=(m, repr(creds.get('roles')), repr(sorted(tgt))), nontrivial=True,
                  sample={'rule': 'role:' + m, 'target': tgt, 'creds': creds, 'decision': outs[0]})
     scenario.run_all(rep, scs, 'leaf-role', check)
+    _live_credentials(ctx, rep)
+
+
+def _live_credentials(ctx, rep):
+    """The credentials a service passes are live objects: the same dict and the same role list, changed in place between
+    calls (a role granted, revoked, the list emptied or refilled), must be read afresh by every check."""
+    from .. import impl
+    n = ctx.n(60, 1500)
+    steps = 0
+    for i in range(n):
+        names = [name(ctx.rng) for _ in range(3)]
+        enf = impl.Enf()
+        enf.set_rules(dict(('p%d' % j, [['role:' + nm.replace('%', '%%')]]) for j, nm in enumerate(names)))
+        roles = []
+        creds = {'roles': roles, 'user_id': 'u'}
+        hist = []
+        for _ in range(ctx.rng.randint(4, 10)):
+            op = ctx.rng.random()
+            nm = ctx.rng.choice(names)
+            if op < 0.45:
+                roles.append(variant(ctx.rng, nm))
+                hist.append('append')
+            elif op < 0.7 and roles:
+                roles.pop(ctx.rng.randrange(len(roles)))
+                hist.append('pop')
+            elif op < 0.8:
+                del roles[:]
+                hist.append('clear')
+            elif op < 0.9 and roles:
+                roles[ctx.rng.randrange(len(roles))] = variant(ctx.rng, nm)
+                hist.append('replace')
+            else:
+                hist.append('none')
+            j = ctx.rng.randrange(3)
+            got = enf.decide('p%d' % j, {}, creds)
+            want = 'allow' if any(r.lower() == names[j].lower() for r in roles) else 'deny'
+            steps += 1
+            if got != want:
+                rep.fail('c04live:%r|%r' % (names[j], list(roles)),
+                         'role:%s with the live role list %r (changed in place: %s) gives %s, expected %s'
+                         % (names[j], roles, ','.join(hist), got, want),
+                         {'role': names[j], 'roles_now': list(roles), 'in_place_changes': list(hist)})
+        rep.case(key='live%d' % i, nontrivial=True, n=1)
+    rep.stat('live_credential_steps', steps)
+    rep.rules.append('%d histories (%d checks) on one enforcer with one credentials dict whose role list is changed in place '
+                     'between checks' % (n, steps))
 
 
 def replay(ctx, rep, data):
